@@ -2,10 +2,11 @@
    Only statements, closed by [exact], and their assumptions. *)
 From Coq Require Import List ZArith Bool.
 Import ListNotations.
-From Zn.gen Require Import GenC04NumDfa GenC04IdRange.
-From Zn.model Require Import NumDfa IdRange.
-From Zn.proofs Require Import NumDfaProofs IdRangeProofs.
+From Zn.gen Require Import GenC04NumDfa GenC04IdRange GenC04Tokens.
+From Zn.model Require Import NumDfa IdRange Tokenize TokSpec TokDoc.
+From Zn.proofs Require Import NumDfaProofs IdRangeProofs TokenizeProofs.
 Open Scope Z_scope.
+Local Notation KW := (parse_keyword g_kw_tree).
 
 (* ---- numbers ---- *)
 
@@ -54,6 +55,84 @@ Theorem C04_id_in_range : forall c,
 Proof. exact gen_id_in_range. Qed.
 Print Assumptions C04_id_in_range.
 
+(* ---- keywords, identifiers, backticks, operators ---- *)
+
+(* Any decision tree that passes the (computable) check returns, at every position, the LONGEST keyword of the table that
+   is a prefix of the remaining text, and reports no keyword exactly when none is. *)
+Theorem C04_kw_check_sound : forall tree doc, kw_tree_check tree doc = true ->
+  forall s, hd 0 s <> 0 ->
+  match parse_keyword tree s with
+  | Some (n, ty) => longest_keyword_at doc s n ty
+  | None => no_keyword_at doc s
+  end.
+Proof. exact checked_tree_longest. Qed.
+Print Assumptions C04_kw_check_sound.
+
+(* The tree regenerated from parseKeyword passes it against the manual's 34 keywords (C04_keywords_documented + C04_kw_match_longest). *)
+Theorem C04_kw_match_longest : gen_tok_ok = true /\ forall s, hd 0 s <> 0 ->
+  match parse_keyword g_kw_tree s with
+  | Some (n, ty) => longest_keyword_at doc_keywords s n ty
+  | None => no_keyword_at doc_keywords s
+  end.
+Proof. exact (conj gen_tokens_translated gen_kw_match_longest). Qed.
+Print Assumptions C04_kw_match_longest.
+
+(* Whole token stream, every input: the lexer model that uses the regenerated parseKeyword tree produces exactly the token
+   stream of the documented lexer, which cuts at every position the longest keyword of the manual's table (TokDoc.lex_doc). *)
+Theorem C04_lexer_cuts_documented_keywords : forall s, lex_impl s = lex_doc s.
+Proof. exact lex_impl_is_lex_doc. Qed.
+Print Assumptions C04_lexer_cuts_documented_keywords.
+
+(* At a character that starts no space, comment, string, backtick name, punctuation or operator, NextToken cuts the keyword
+   parseKeyword finds there (by the previous theorem: the longest documented one) and otherwise starts an identifier. *)
+Theorem C04_keyword_cut_first : forall c r pos, plain_start c = true ->
+  next_token KW (c :: r) pos =
+  match parse_keyword g_kw_tree (c :: r) with
+  | Some (wl, ty) => TTok ty pos (pos + wl) [] (skipn (Z.to_nat wl) (c :: r))
+  | None => parse_identifier KW (c :: r) pos
+  end.
+Proof. exact next_token_plain. Qed.
+Print Assumptions C04_keyword_cut_first.
+
+(* An identifier token is a maximal run: it starts with an identifier character, continues with identifier characters,
+   NO documented keyword starts at any later position inside it, it ends exactly where a stop condition holds (white space,
+   a keyword, a comment start, a marker or the end of text), and it does not end with '/'.
+   C04_segmentation_partial: together with C04_keyword_cut_first and C04_kw_match_longest this is the greedy left-to-right
+   segmentation token by token. The single statement [forall s over the alphabet, fst (lex s) = greedy_segment s] for a second,
+   independently written scanner is NOT proved (left undone); the per-run differential check compares whole token streams. *)
+Theorem C04_segmentation_partial : forall c r pos ty s e lit r',
+  parse_identifier KW (c :: r) pos = TTok ty s e lit r' ->
+  exists taken, r = taken ++ r' /\ lit = c :: taken /\ ty = g_TypeIdentifier /\ s = pos /\ e = pos + 1 + Z.of_nat (length taken)
+    /\ is_id_char c = true /\ forallb is_id_body taken = true
+    /\ (forall a b, taken = a ++ b -> b <> [] -> no_keyword_at doc_keywords (b ++ r'))
+    /\ ident_stop KW r' = true
+    /\ last lit 0 <> g_SlashOp.
+Proof. exact identifier_token_spec. Qed.
+Print Assumptions C04_segmentation_partial.
+
+(* Text between backticks is ONE identifier whose literal is the text, whatever keywords occur in it. *)
+Theorem C04_backtick_single_identifier : forall body r pos, forallb is_id_body body = true ->
+  next_token KW (g_BackTick :: body ++ g_BackTick :: r) pos =
+  TTok g_TypeIdentifier pos (pos + Z.of_nat (length body) + 2) body r.
+Proof. exact backtick_single_identifier. Qed.
+Print Assumptions C04_backtick_single_identifier.
+
+(* + - * are operator tokens exactly when followed by white space, punctuation or a quote; otherwise the token that starts
+   there (if any) is an identifier. *)
+Theorem C04_operator_needs_delimiter : forall c r pos ty s e lit r',
+  In c [g_PlusOp; g_MinusOp; g_MultiplyOp] ->
+  next_token KW (c :: r) pos = TTok ty s e lit r' ->
+  (is_delim (cur r) = true /\ ty = op_type c /\ s = pos /\ e = pos + 1 /\ lit = [] /\ r' = r)
+  \/ (is_delim (cur r) = false /\ ty = g_TypeIdentifier).
+Proof. exact operator_needs_delimiter. Qed.
+Print Assumptions C04_operator_needs_delimiter.
+
+(* '/' (not starting //, /*, /=) is the division operator exactly when followed by a delimiter, and cannot start a name. *)
+Theorem C04_slash_needs_delimiter : forall r pos, mem (cur r) [g_SlashOp; g_MultiplyOp; g_EqualOp] = false ->
+  next_token KW (g_SlashOp :: r) pos = if is_delim (cur r) then TTok g_TypeDivision pos (pos + 1) [] r else TErr pos.
+Proof. exact next_token_slash. Qed.
+Print Assumptions C04_slash_needs_delimiter.
+
 (* ---- non-vacuity ---- *)
 Example C04_ex_number : try_parse_number GenT [45;49;56;46;57;42;49;48;94;45;55] = RNumber.   (* -18.9*10^-7 *)
 Proof. vm_compute. reflexivity. Qed.
@@ -63,3 +142,25 @@ Example C04_ex_name : try_parse_number GenT [45;81;51;45] = RName.              
 Proof. vm_compute. reflexivity. Qed.
 Example C04_ex_id : id_in_range gen_id_guard_max gen_id_range 0x4E2D = BTrue /\ id_in_range gen_id_guard_max gen_id_range 0xFF0B = BFalse.
 Proof. vm_compute. split; reflexivity. Qed.
+Example C04_ex_greedy : encode_lex (lex_impl [20215;26684;19981;22823;20110;50;48])        (* 价格不大于20 *)
+  = [[0;0]; [5;0;2;20215;26684]; [52;2;5]; [5;5;7;50;48]; [0;7;7]].
+Proof. vm_compute. reflexivity. Qed.
+Example C04_ex_backtick : encode_lex (lex_impl [96;28216;25152;20026;30340;96;20026])           (* `游所为的`为 *)
+  = [[0;0]; [5;0;6;28216;25152;20026;30340]; [41;6;7]; [0;7;7]].
+Proof. vm_compute. reflexivity. Qed.
+Example C04_ex_operator : encode_lex (lex_impl [65;47;66;32;47;32;67]) = [[0;0]; [5;0;3;65;47;66]; [39;4;5]; [5;6;7;67]; [0;7;7]]. (* A/B / C *)
+Proof. vm_compute. reflexivity. Qed.
+Example C04_ex_plain : plain_start 20215 = true /\ plain_start 19981 = true /\ plain_start 43 = false.
+Proof. vm_compute. auto. Qed.
+(* the manual's identifier examples (chapter 1) are single identifiers: 星标值*  白卡纸/牛皮纸飞机盒  公交车站-数目  -内部属性-  _WINDOW_HANDLER2  $xyz  +45.78 *)
+Example C04_ex_manual_identifiers :
+  map (fun s => map (fun t => firstn 3 t) (encode_lex (lex_doc s)))
+      [[26143;26631;20540;42]; [30333;21345;32440;47;29275;30382;32440;39134;26426;30418]; [20844;20132;36710;31449;45;25968;30446];
+       [45;20869;37096;23646;24615;45]; [95;87;73;78;68;79;87;95;72;65;78;68;76;69;82;50]; [36;120;121;122]; [43;52;53;46;55;56]]
+  = [[[0;0];[5;0;4];[0;4;4]]; [[0;0];[5;0;10];[0;10;10]]; [[0;0];[5;0;7];[0;7;7]]; [[0;0];[5;0;6];[0;6;6]];
+     [[0;0];[5;0;16];[0;16;16]]; [[0;0];[5;0;4];[0;4;4]]; [[0;0];[5;0;6];[0;6;6]]].
+Proof. vm_compute. reflexivity. Qed.
+(* 游所为的手机 = 游所 + 为 + 的 + 手机 *)
+Example C04_ex_manual_cut : map (fun t => firstn 3 t) (encode_lex (lex_doc [28216;25152;20026;30340;25163;26426]))
+  = [[0;0]; [5;0;2]; [41;2;3]; [72;3;4]; [5;4;6]; [0;6;6]].
+Proof. vm_compute. reflexivity. Qed.
